@@ -38,16 +38,20 @@ std::vector<int> alphabet(Rng& r, size_t n) {
 
 struct OlcEngine final : Engine {
   const char* name() const override { return "olcsim"; }
-  uint64_t schedules_per_program() const override { return 32; }
+  static int raw_focus() { const char* fe = getenv("SIM_FOCUS"); return fe ? atoi(fe) : 0; }
+  // focus 1xx = focus xx with every program a scenario template of three threads and its schedules a systematic grid of
+  // double preemptions (4094 cells) instead of a sample of strategies
+  bool systematic_sweep() const override { return raw_focus() >= 100; }
+  uint64_t schedules_per_program() const override { return systematic_sweep() ? 4096 : 32; }
 
   Case generate(uint64_t seed, const std::string& tier) override {
     Case c;
     c.engine = name();
     c.seed = seed;
     Rng r = stream(seed, S_WORKLOAD);
-    const char* fe = getenv("SIM_FOCUS");
-    const int focus = fe ? atoi(fe) : 0;
-    c.set_knob("focus", focus);
+    const bool sweep = systematic_sweep();
+    const int focus = raw_focus() % 100;
+    c.set_knob("focus", raw_focus());
     const int keykind = r.chance(0.7) ? 0 : 1;
     c.set_knob("keykind", keykind);
     Layout lay;
@@ -84,7 +88,7 @@ struct OlcEngine final : Engine {
     Rng tq = stream(seed, S_WORKLOAD + 64);
     enum { T_NONE, T_COLLAPSE_INODE, T_COLLAPSE_LEAF, T_PREFIX_SPLIT, T_GROW, T_SHRINK, T_LEAF_SPLIT_BELOW };
     int tmpl = T_NONE;
-    if (tq.chance(0.25)) {
+    if (sweep || tq.chance(0.25)) {
       tmpl = 1 + static_cast<int>(tq.below(6));
       static const int grow_at[] = {4, 4, 16, 16, 48}, shrink_at[] = {5, 5, 17, 17, 49};
       if (tmpl == T_COLLAPSE_INODE || tmpl == T_COLLAPSE_LEAF) cnt = 2;
@@ -189,7 +193,7 @@ struct OlcEngine final : Engine {
     };
     // threads
     const auto tx = r.below(100);
-    const int nthreads = tmpl != T_NONE ? (tx < 75 ? 3 : 4) : (tx < 50 ? 2 : (tx < 85 ? 3 : 4));
+    const int nthreads = sweep ? 3 : (tmpl != T_NONE ? (tx < 75 ? 3 : 4) : (tx < 50 ? 2 : (tx < 85 ? 3 : 4)));
     const int nscanners = focus == 9 ? (nthreads >= 3 && r.chance(0.4) ? 2 : 1) : 0;
     const bool with_scans = focus == 4 || focus == 14 || focus == 0;
     for (int t = 0; t < nthreads; t++) {
@@ -198,7 +202,7 @@ struct OlcEngine final : Engine {
       const auto ox = r.below(100);
       int nops = ox < 25 ? 1 : (ox < 60 ? 2 : (ox < 85 ? 3 : 4));
       if (scanner) nops = static_cast<int>(r.range(1, 2));
-      if (tmpl != T_NONE && t < 3) nops = static_cast<int>(tq.below(2));  // the template supplies the first operation
+      if (tmpl != T_NONE && t < 3) nops = sweep ? 0 : static_cast<int>(tq.below(2));  // the template supplies the first operation
       for (int i = 0; i < nops; i++) {
         Op o;
         const auto k = r.below(100);
@@ -287,7 +291,7 @@ struct OlcEngine final : Engine {
       c.set_knob("template", tmpl);
     }
     c.set_knob("initial_threads", nthreads);
-    if (focus == 4 || focus == 14 || focus == 0 || focus == 10) {
+    if (!sweep && (focus == 4 || focus == 14 || focus == 0 || focus == 10)) {
       // QSBR membership changes inside the concurrent phase: pause+resume between index operations, and (sometimes) a
       // qsbr_thread started by one of the running threads
       for (auto& ops : c.threads)
